@@ -51,11 +51,18 @@ unsigned int vf_atomic_exchange_u32(unsigned int *p, unsigned int v, int order, 
   unsigned int old = *p; *p = v; g_exchanged_out = old; return old;
 }
 _Bool g_value_constructed, g_sealed;
+/* set_value under contract: callbacks registered before the seal form a list of ANY length (typed node array, node k -> node k+1) */
+struct FC_CallbackNode *g_cb; unsigned long g_cbn, g_ran, g_deleted; _Bool g_cb_order_ok, g_cb_late_ok, g_del_ok; unsigned int g_waiters0; int g_value0; FC_t *g_ctx;
 static FC_t *b_ctx; static int b_expected_value;
 void *vf_atomic_exchange_ptr(void **p, void *v, int order, int site) {
   __CPROVER_assert(order == 4 || order == 5, "K6 C08.seal the head exchange is acq_rel");
+#ifdef VF_SETVAL_CONTRACT
+  if (v == (void *)SEALED)
+    __CPROVER_assert(*(int *)g_ctx->_storage == g_value0, "K5 C08.seal the value is constructed before the head is sealed");
+#else
   if (b_ctx != 0 && v == (void *)SEALED)
     __CPROVER_assert(*(int *)b_ctx->_storage == b_expected_value, "K5 C08.seal the value is constructed before the head is sealed");
+#endif
   g_value_constructed = 1;
   void *old = *p; *p = v; if (v == (void *)SEALED) g_sealed = 1; return old;
 }
@@ -84,7 +91,10 @@ int vf_clock_gettime(int clk, struct timespec *ts) {
   ts->tv_sec = s; ts->tv_nsec = n;
   return 0;
 }
-static void vf_havoc_ghosts(void) { g_wakes = 0; g_sleeps = 0; g_ready_seen = 0; g_clock_reads = 0; g_sec = nondet_i64(); g_nsec = nondet_i64(); g_clock_failed = 0; g_timeout0 = nondet_i64(); g_env_on = 1; }
+static void vf_havoc_ghosts(void) {
+  g_cbn = nondet_u32(); __CPROVER_assume(g_cbn < (1UL << 20)); g_cb = malloc((g_cbn + 1) * sizeof(struct FC_CallbackNode)); __CPROVER_assume(g_cb != 0);
+  g_ran = g_deleted = 0; g_cb_order_ok = g_cb_late_ok = g_del_ok = 1; g_waiters0 = nondet_u32(); g_value0 = nondet_int(); g_value_constructed = 0; g_sealed = 0;
+  g_wakes = 0; g_sleeps = 0; g_ready_seen = 0; g_clock_reads = 0; g_sec = nondet_i64(); g_nsec = nondet_i64(); g_clock_failed = 0; g_timeout0 = nondet_i64(); g_env_on = (nondet_u32() & 1) != 0; }
 
 #define FC_SHAPE(c) (__CPROVER_is_fresh(c, sizeof(*c)) && __CPROVER_pointer_equals(g_w, &(c)->_futex._value))
 
@@ -132,6 +142,7 @@ __CPROVER_ensures(__CPROVER_return_value == (int *)c->_storage)
 /* ---- set_value on explicitly built contexts (BOUNDED: <= 3 registered callbacks, any waiter count) ---- */
 #define MAXCB 3
 static Node_t *b_nodes[MAXCB]; static unsigned b_ncb, b_runs[MAXCB], b_deleted;
+#ifndef VF_SETVAL_CONTRACT
 void Fn_op_call(struct Fn *f) {
   /* "callbacks never run before the value is set": value constructed, head sealed, and the callback sees the value */
   __CPROVER_assert(g_value_constructed && g_sealed && b_ctx->_head == SEALED, "K5 C08.set_value a callback runs only after the value is constructed and the head sealed");
@@ -140,6 +151,7 @@ void Fn_op_call(struct Fn *f) {
 }
 void Fn_dtor(struct Fn *f) { }
 void vf_operator_delete(void *p, size_t n) { b_deleted++; free(p); }
+#endif
 void h_set_value(void) {
   FC_t ctx; b_ctx = &ctx; g_w = &ctx._futex._value; g_env_on = 0;
   unsigned int waiters = nondet_u32(); __CPROVER_assume(waiters < (1U << 30)); ctx._futex._value = waiters;
@@ -183,4 +195,41 @@ __CPROVER_requires(__CPROVER_is_fresh(p, sizeof(*p)) && __CPROVER_is_fresh(v, si
 __CPROVER_assigns(g_own_refs, g_fc_calls)
 __CPROVER_ensures(g_own_refs == 0 && g_fc_calls <= 1)
 ;
+
+/* ---- set_value under CONTRACT (job C08.set_value): any number of registered callbacks, any waiter count.
+ * The value is constructed before the head is sealed (release/acq_rel) and before READY is published (release); whoever swaps a
+ * non-zero waiter count out calls wake_all; then every callback registered before the seal runs exactly once, in list order, seeing
+ * the value, after the seal, and its node is deleted exactly once, after it ran.  The list shape (node k links to node k+1) is
+ * assumed for a node when its callback is invoked -- the real code reads `next` only after that call. */
+#define CB_AT(p, k) (__CPROVER_same_object(p, g_cb) && __CPROVER_POINTER_OFFSET(p) % sizeof(struct FC_CallbackNode) == 0 && __CPROVER_POINTER_OFFSET(p) / sizeof(struct FC_CallbackNode) == (k))
+#ifdef VF_SETVAL_CONTRACT
+void Fn_op_call(struct Fn *f) {
+  if (!(g_ran < g_cbn && f == &g_cb[g_ran].function)) g_cb_order_ok = 0;                 /* the next callback of the list: each once, in order */
+  if (!(g_value_constructed && g_sealed && g_ctx->_head == SEALED && *(int *)g_ctx->_storage == g_value0 && (*g_w & READY))) g_cb_late_ok = 0;
+  if (g_ran < g_cbn) __CPROVER_assume(g_cb[g_ran].next == (g_ran + 1 < g_cbn ? &g_cb[g_ran + 1] : (struct FC_CallbackNode *)0));   /* list shape */
+  __CPROVER_assume(g_ran < (1UL << 30)); g_ran++;
+}
+void Fn_dtor(struct Fn *f) { }
+void vf_operator_delete(void *p, size_t n) {
+  if (!(g_deleted < g_ran && p == (void *)&g_cb[g_deleted])) g_del_ok = 0;                 /* the node whose callback just ran, once */
+  __CPROVER_assume(g_deleted < (1UL << 30)); g_deleted++;
+}
+#endif
+#ifdef VF_ENFORCE_FC_set_value__int_void
+void FC_set_value__int_void(FC_t *c, int *args)
+__CPROVER_requires(FC_SHAPE(c) && __CPROVER_is_fresh(args, sizeof(int)) && *args == g_value0 && !g_env_on && *g_w == g_waiters0 && g_waiters0 < (1U << 30))
+__CPROVER_requires(__CPROVER_pointer_equals(c->_head, g_cbn > 0 ? g_cb : (struct FC_CallbackNode *)0) && __CPROVER_pointer_equals(g_ctx, c) && g_ran == 0 && g_deleted == 0 && !g_value_constructed && !g_sealed && g_wakes == 0)
+__CPROVER_assigns(*c, g_value_constructed, g_sealed, g_exchanged_out, g_wakes, g_ran, g_deleted, g_cb_order_ok, g_cb_late_ok, g_del_ok, __CPROVER_object_whole(g_cb))
+__CPROVER_ensures(c->_head == SEALED && *g_w == READY && *(int *)c->_storage == g_value0)
+__CPROVER_ensures(g_waiters0 == 0 || g_wakes >= 1)
+__CPROVER_ensures(g_ran == g_cbn && g_deleted == g_cbn && g_cb_order_ok && g_cb_late_ok && g_del_ok)
+;
+#endif
+//@loop FC_set_value__int_void 1
+//@  VF_REBASE(@l1:head@, g_cb)
+//@  __CPROVER_assigns(@l1:head@, g_ran, g_deleted, g_cb_order_ok, g_cb_late_ok, g_del_ok, __CPROVER_object_whole(g_cb))
+//@  __CPROVER_loop_invariant(g_ran <= g_cbn && g_deleted == g_ran && g_cb_order_ok && g_cb_late_ok && g_del_ok && (g_ran < g_cbn ? CB_AT(@l1:head@, g_ran) : @l1:head@ == 0))
+//@  __CPROVER_loop_invariant(g_value_constructed && g_sealed && g_ctx->_head == SEALED && *(int *)g_ctx->_storage == g_value0 && *g_w == READY)
+//@  __CPROVER_decreases(g_cbn - g_ran)
+//@end
 #endif
